@@ -6,6 +6,9 @@ import "pgregory.net/rapid"
 
 func Gen(t *rapid.T) *Case {
 	c := &Case{Strict: rapid.IntRange(0, 3).Draw(t, "strict") == 0, Direct: rapid.Bool().Draw(t, "direct")}
+	if rapid.Bool().Draw(t, "dropCallbacks") {
+		c.NoCB = rapid.IntRange(1, 7).Draw(t, "noCB")
+	}
 	n := rapid.IntRange(1, 40).Draw(t, "n")
 	kinds := []string{"insert", "insert", "update", "update", "updateold", "delete", "delete", "deleteold", "reset", "snapstart", "snapend"}
 	types := []int{0, 0, 1, 2, 2, 3}
